@@ -123,6 +123,7 @@ class SymEx:
         self.bv_depth = 0
         self.npaths = 0
         self.suppress = 0
+        self.in_comp = 0
 
     # ------------------------------------------------------------------ entry
     def run(self, fn, args=None, self_term=None, state=None):
@@ -861,6 +862,13 @@ class SymEx:
                     parts.append(self.compare(op, vs[i], vs[i + 1]))
                 out.append((x, parts[0] if len(parts) == 1 else self.boolop(ast.And(), parts)))
             return out
+        if isinstance(e, ast.IfExp) and self.in_comp:
+            # inside a comprehension a conditional element stays a term: it must not fork the enclosing path
+            out = []
+            for x, vs in self.seq([e.test, e.body, e.orelse], st):
+                tv = truth(vs[0])
+                out.append((x, vs[1] if tv is True else (vs[2] if tv is False else ('ite', vs[0], vs[1], vs[2]))))
+            return out
         if isinstance(e, ast.IfExp):
             out = []
             for x, t in self.ev(e.test, st):
@@ -1069,6 +1077,13 @@ class SymEx:
             self.suppress -= 1
 
     def _comp(self, e, st):
+        self.in_comp += 1
+        try:
+            return self._comp1(e, st)
+        finally:
+            self.in_comp -= 1
+
+    def _comp1(self, e, st):
         kind = {ast.ListComp: 'list', ast.SetComp: 'set', ast.GeneratorExp: 'gen', ast.DictComp: 'dict'}[type(e)]
         x = State(dict(st.env), dict(st.heap), (), (), dict(st.decided))
         base = self.bv_depth
@@ -1477,6 +1492,34 @@ class Valuation:
                 return None
             if r.is_const():
                 return r.const()
+        if t[0] == 'call' and t[1][0] == 'ext' and len(t[2]) >= 1:
+            import math
+            name = t[1][1]
+            vs = [self.value(a) for a in t[2]]
+            if None not in vs and not t[3]:
+                x = vs[0]
+                if name == 'INT' and len(vs) == 1:
+                    return Fraction(int(x))             # truncation toward zero
+                if name == 'FLOOR' and len(vs) == 1:
+                    return Fraction(math.floor(x))
+                if name == 'CEIL' and len(vs) == 1:
+                    return Fraction(math.ceil(x))
+                if name == 'TRUNC' and len(vs) == 1:
+                    return Fraction(math.trunc(x))
+                if name == 'ROUND' and len(vs) == 1:
+                    return Fraction(round(x))
+                if name == 'ABS' and len(vs) == 1:
+                    return abs(x)
+                if name == 'MAX':
+                    return max(vs)
+                if name == 'MIN':
+                    return min(vs)
+        if t[0] == 'call' and t[1] == ('ext', 'pandas.Timedelta') and not t[2]:
+            # a duration in days
+            kws = dict(t[3])
+            unit = {'days': Fraction(1), 'hours': Fraction(1, 24), 'minutes': Fraction(1, 1440), 'seconds': Fraction(1, 86400), 'weeks': Fraction(7)}
+            if kws and all(k in unit and v[0] == 'num' for k, v in kws.items()):
+                return sum(unit[k] * v[1] for k, v in kws.items())
         return None
 
     def evalbool(self, t):
